@@ -170,6 +170,31 @@ func checkC08(w *World, r *Report) {
 				pl = &l
 			}
 		}
+		// the search may live in a helper that is given the pools and the name
+		if pl == nil && nameP != nil {
+			for _, cs := range cg.Sites[send] {
+				h := cs.Common().StaticCallee()
+				if h == nil || h.Blocks == nil || !w.isProdFunc(h) || cs.Common().IsInvoke() {
+					continue
+				}
+				for i, a := range cs.Common().Args {
+					if a != ssa.Value(nameP) || i >= len(h.Params) {
+						continue
+					}
+					for _, l := range rangeLoops(h) {
+						l := l
+						if l.Over == nil {
+							continue
+						}
+						_, isParam := l.Over.(*ssa.Parameter)
+						if isParam || loadOfField(l.Over, "VestingPools", nil) {
+							pl = &l
+							nameP = h.Params[i]
+						}
+					}
+				}
+			}
+		}
 		if pl == nil || nameP == nil {
 			r.Unk("C08.pool", "selection of the pool to debit", w.Pos(send.Pos()), "loop over the owner's pools not found")
 		} else {
@@ -199,7 +224,7 @@ func checkC08(w *World, r *Report) {
 				for _, b := range add.Blocks {
 					if i := blockIf(b); i != nil {
 						base, _ := stripNot(i.Cond)
-						if bo, isB := base.(*ssa.BinOp); isB && bo.Op == token.EQL && (loadOfField(bo.X, "Name", nil) || loadOfField(bo.Y, "Name", nil)) {
+						if bo, isB := base.(*ssa.BinOp); isB && (bo.Op == token.EQL || bo.Op == token.NEQ) && (loadOfField(bo.X, "Name", nil) || loadOfField(bo.Y, "Name", nil)) {
 							okU = true
 						}
 					}
